@@ -59,6 +59,11 @@ def run(chk, repo, tier):
     chk.clause('C03-g', 'sub-array offsets reach the transform', 3)
     chk.clause('C03-i', 'the slice cache holds one bounding slice per (segment) mask', 2)
     chk.clause('C03-j', 'resampling treats the segment masks exactly like the global mask', 1)
+    chk.clause('C03-n', 'segment bookkeeping rests on exact extent algebra and inserts (overlap tests, clipping, floor(n/2) placement)', 20)
+    from . import extent_rules as _X
+    from .c06 import insert_rules
+    _X.extent_identities(chk, repo, 'C03-n')
+    insert_rules(chk, repo, 'C03-n')
     chk.clause('C03-l', 'a masked output window is placed by the bounding box of the mask with the floor(n/2) convention, for '
                         'segmented and monolithic wavefronts alike', 2)
     from . import extent_rules as X
